@@ -228,6 +228,9 @@ def run(chk, ctx):
         users = sorted(set(nm.split("::")[-1] for bb, t in tn.calls() for nm in [callee_name(t)[0]] if any(ans == canon(x) for x in P.call_arg_terms(tn, bb)) and not nm.endswith("Deref>::deref") and not nm.endswith("Try>::branch")))
         chk.require(users == ["build_output_indices", "new_with_outputs"], "ORG", "ORG:taint:first-answer-consumers", "the first answer is used only by build_output_indices and new_with_outputs", "the first answer flows into %s" % users)
     scope_soundness(chk, P)
+    # the gate's reading of the parser's scope is right only if, at run time too, a bound variable hides an output of the same name
+    get_shape_rule(chk, P)
+    swap_pair_rule(chk, P)
     # the gate is only as good as the parser's classification of identifiers: the parse-time scoping rules (shared with C11)
     from . import c11
     c11.scoping_rules(chk, P, exclude=("while-opens-no-scope",))   # that one is C01/C11's; here a while frame would be welcome (F18)
